@@ -68,14 +68,14 @@ CLAIMS.update({
                 technique="exhaustive enumeration of operation sequences with injected panics (crash points) on the real code, fork isolation; schedule exploration for the concurrent part"),
     "C06": dict(engine=E3, ref="DESIGN.md §5 C06",
                 text="sequential: every sequence of matching / non-matching calls (caught or propagating), scope ends and panics up to the depth for N in 0..3 against a reference model; concurrent: k <= N+2 matching calls split over 1-3 caller threads under every schedule (3 callers: preemption-bounded), and 8/16 identical single-call threads with symmetry reduction; exactly min(k,N) admissions, scope-exit verdict and message in every schedule",
-                note="bounds and caps in evidence.coverage; the counter is the instrumented atomic of the scheduled mount; budgets next to 2^8 and 2^16 (thorough 2^20) with long lifetimes; a 12-arm matrix of `times` arms under 2-3 concurrent callers incl. non-matching ones",
+                note="bounds and caps in evidence.coverage; the counter is the instrumented atomic of the scheduled mount; budgets next to 2^8 and 2^16 (thorough 2^20) with long lifetimes; a 12-arm matrix of `times` arms under 2-3 concurrent callers incl. non-matching ones; the sequential accounting is also judged on every `times` arm of the macro (generated programs, every call script up to N+2 calls, dev and release configuration)",
                 technique="exhaustive enumeration of call sequences; stateless DFS over schedules with preemption bounding for the concurrent part"),
 })
 
 CLAIMS.update({
     "C08": dict(engine=E4, ref="DESIGN.md §5 C08",
                 text="every arm of fake! found in macros.rs at check time is instantiated by one generated program (canonical well-typed use) compiled separately by rustc against the unmodified crate; every compiled arm is driven through every call script over {matching, non-matching} up to length N+2 for N in 0..2, each in its own process, and compared call by call with one reference model (when guards, rejected calls have no side effect, assign before returns, returns evaluated per call with arguments in scope, times as a budget, scope-exit verdict, abort for non-unwinding ABIs)",
-                note="one canonical instantiation per arm (two parameters, one by reference/pointer); thorough adds N=3 and scripts up to N+3; two more generated programs per arm: user types named like the macro's own imports, and structs passed by value",
+                note="one canonical instantiation per arm (two parameters, one by reference/pointer); thorough adds N=3 and scripts up to N+3; two more generated programs per arm: user types named like the macro's own imports, and structs passed by value; every arm program is built and driven in two configurations: dev crate + debug assertions on, release crate + program compiled with -C debug-assertions=off",
                 technique="exhaustive enumeration of macro arms x call scripts against a reference model; rustc accept/reject observed per arm"),
     "C09": dict(engine=E4, ref="DESIGN.md §5 C09",
                 text="all ordered pairs of a 45-type family (arity, one parameter type, return type, reference mutability, raw-pointer mutability, unsafety, ABI, nested fn pointers, case, equal-length names) through func! and closure!, all ordered pairs of 16 fake!/func!-spelling configurations, every fake! arm against a target of every function kind, all ordered pairs of 5 async output types, checked x unchecked mixes and null pointers, executed against the unmodified crate: refusal iff the types are not written identically, message class, target bytes unchanged after a refusal",
